@@ -15,6 +15,7 @@
 -/
 import CatVerif.Proofs.Log
 import CatVerif.Proofs.Graph
+import CatVerif.Proofs.Steps
 namespace Cat
 open St
 
@@ -176,5 +177,19 @@ theorem C19_list_skips_disabled (D : Desc) (s : St) (hi : s.index < D.commandsNu
 /-- the list advances through the table in registration order: `index` only ever grows by one -/
 theorem C19_list_order (D : Desc) (s : St) : (cmdListNextCmd D s).1.index = s.index + 1 := by
   simp [cmdListNextCmd]; split <;> simp
+
+/-- how an automatic READ / TEST response is started — cursor reset, `NAME=` printed, then the variable
+list if there is one (READ: if a variable is readable), otherwise the handler or, for TEST, the
+description and the end of the line; ERROR if a text does not fit or nothing can answer — is, in the
+model, the text regenerated from `start_processing_format_read_args` / `..._test_args`,
+`end_processing_with_ok` / `..._error` and `reset_position` of the source (translator item T12: `switch
+(fsm)` as a match on the machine; the model's ghost NULL check of the command pointer is part of the template) -/
+theorem C19_format_start_generated (D : Desc) (s : St) (f : Fsm) :
+    startFormatRead D s f = Gen.start_processing_format_read_args D s f ∧
+    startFormatTest D s f = Gen.start_processing_format_test_args D s f ∧
+    endOk D s f = Gen.end_processing_with_ok D s f ∧ endError D s f = Gen.end_processing_with_error D s f ∧
+    s.setPos f 0 = Gen.reset_position D s f :=
+  ⟨startFormatRead_generated D s f, startFormatTest_generated D s f, endOk_generated D s f, endError_generated D s f,
+   setPos_generated D s f⟩
 
 end Cat
